@@ -74,7 +74,8 @@ fn run_history(rec: &mut Rec, rng: &mut Rng, expr: &str, sets: &Sets) {
         return;
     }
     let calls = 4 + rng.below(37);
-    let clone_at = rng.below(calls);
+    let clone_at = if rng.chance(1, 4) { 0 } else { rng.below(calls) };
+    let use_clone_from = rng.chance(1, 2);
     let mut clock = start;
     let mut last: Option<i64> = None; // last returned minute
     let mut events: Vec<Event> = vec![];
@@ -142,21 +143,58 @@ fn run_history(rec: &mut Rec, rng: &mut Rng, expr: &str, sets: &Sets) {
             Some(l) if l >= now_min => l,
             _ => now_min,
         };
-        let expected = match sets.next_after(floor, HORIZON) {
+        // how the result is pulled: next(), or one of the Iterator methods a type may override — nth(k), skip(k), take(k+1)
+        // — which must equal k+1 calls of next() under the same clock
+        let k_extra: usize = if rng.chance(1, 5) { 1 + rng.below(if sets.minutes.iter().filter(|x| **x).count() > 30 { 150 } else { 4 }) as usize } else { 0 };
+        let pull_mode = rng.below(4);
+        let mut expected = match sets.next_after(floor, HORIZON) {
             Some(e) => e,
             None => {
                 rec.bin("history/no-match-within-horizon-stopped");
                 break;
             }
         };
+        let mut ended = false;
+        for _ in 0..k_extra {
+            match sets.next_after(expected, HORIZON) {
+                Some(e) => expected = e,
+                None => {
+                    ended = true;
+                    break;
+                }
+            }
+        }
+        if ended {
+            rec.bin("history/no-match-within-horizon-stopped");
+            break;
+        }
+        rec.bin(match (k_extra > 0, pull_mode) { (false, 0) | (false, 1) => "pull/next", (false, 2) => "pull/nth(0)", (false, _) => "pull/take(1)", (true, 0) => "pull/nth(k)", (true, 1) => "pull/skip(k)", (true, 2) => "pull/take(k+1).last", _ => "pull/k+1-times-next" });
         if call == clone_at {
             // a copy taken with clone() or — every other time — written over an unrelated, already used schedule with
             // clone_from(): either way it must continue like the original
-            clone = Some(if clone_at % 2 == 0 {
+            clone = Some(if !use_clone_from {
+                rec.bin("clone/clone()");
                 sched.clone()
             } else {
-                let mut other = CronSchedule::parse("*/7 3 * * *").unwrap();
-                let _ = trap(|| other.next());
+                // the target: another schedule (or the same expression), never used or already used 1–3 times under a
+                // clock before, at or long after the present one; the source: never used (call 0) or used
+                let other_expr = *rng.pick(&["*/7 3 * * *", "0 0 1 1 *", "* * * * *", "0 0 29 2 *"]);
+                let mut other = CronSchedule::parse(if rng.chance(1, 4) { expr } else { other_expr }).unwrap_or_else(|_| CronSchedule::parse("* * * * *").unwrap());
+                let used = rng.below(4);
+                let ahead = *rng.pick(&[-3_650i64 * 86_400, -86_400, 0, 86_400, 400 * 86_400, 3_650 * 86_400]);
+                if used > 0 {
+                    if let Some((c2, _)) = sane_value((clock + ahead) as i128 * NS, 0) {
+                        let _ = trap(|| {
+                            astrolabe::verif::pin_now(Some(c2));
+                            for _ in 0..used {
+                                let _ = other.next();
+                            }
+                            astrolabe::verif::pin_now(None);
+                        });
+                        astrolabe::verif::pin_now(None);
+                    }
+                }
+                rec.bin(match (call == 0, used > 0) { (true, true) => "clone_from/fresh-source-into-used-target", (true, false) => "clone_from/fresh-source-into-fresh-target", (false, true) => "clone_from/used-source-into-used-target", _ => "clone_from/used-source-into-fresh-target" });
                 other.clone_from(&sched);
                 other
             });
@@ -169,8 +207,24 @@ fn run_history(rec: &mut Rec, rng: &mut Rng, expr: &str, sets: &Sets) {
         };
         let r = trap(|| {
             astrolabe::verif::pin_now(Some(clk));
-            let a = sched.next();
-            let b = clone.as_mut().map(|c| c.next());
+            let pull = |s: &mut CronSchedule| -> Option<DateTime> {
+                match (k_extra, pull_mode) {
+                    (0, 0) | (0, 1) => s.next(),
+                    (0, 2) => s.nth(0),
+                    (0, _) => s.by_ref().take(1).last(),
+                    (k, 0) => s.nth(k),
+                    (k, 1) => s.by_ref().skip(k).next(),
+                    (k, 2) => s.by_ref().take(k + 1).last(),
+                    (k, _) => {
+                        for _ in 0..k {
+                            let _ = s.next();
+                        }
+                        s.next()
+                    }
+                }
+            };
+            let a = pull(&mut sched);
+            let b = clone.as_mut().map(|c| pull(c));
             astrolabe::verif::pin_now(None);
             // results are read only if they are canonical values (read like an independently built value)
             let ta = match &a {
@@ -301,8 +355,40 @@ pub fn run(ctx: &Ctx) -> PropResult {
     }));
     wls.push(Workload::cases("histories_generated_schedules", ctx.count(14_000, 1_500_000), |rec, _, rng| {
         let expr = gen_expression(rng);
-        if let Spec::Accept(sets) = cron_spec::parse(&expr) {
-            run_history(rec, rng, &expr, &sets);
+        match cron_spec::parse(&expr) {
+            Spec::Accept(sets) => run_history(rec, rng, &expr, &sets),
+            // zero-padded numbers: acceptance is unspecified (run_history stops when the expression is refused), but an
+            // accepted expression can only mean its numeric reading
+            Spec::Unspecified("leading zero") => {
+                if let Spec::Accept(sets) = cron_spec::parse_lenient(&expr) {
+                    rec.bin("history/zero-padded-numbers");
+                    run_history(rec, rng, &expr, &sets);
+                }
+            }
+            _ => {}
+        }
+    }));
+    // exactly one field restricted, the other four `*` — for each of the five fields (what an "every minute" /
+    // "every day" shortcut must still respect)
+    wls.push(Workload::cases("histories_one_field_restricted", ctx.count(5_000, 300_000), |rec, idx, rng| {
+        let f = (idx % 5) as usize;
+        let mut fields = vec!["*".to_string(); 5];
+        fields[f] = loop {
+            let t = super::c16::gen_field(rng, f);
+            if t != "*" {
+                break t;
+            }
+        };
+        let expr = fields.join(" ");
+        rec.bin("history/one-field-restricted");
+        match cron_spec::parse(&expr) {
+            Spec::Accept(sets) => run_history(rec, rng, &expr, &sets),
+            Spec::Unspecified("leading zero") => {
+                if let Spec::Accept(sets) = cron_spec::parse_lenient(&expr) {
+                    run_history(rec, rng, &expr, &sets);
+                }
+            }
+            _ => {}
         }
     }));
     let sr = &starts;
@@ -360,7 +446,9 @@ pub fn run(ctx: &Ctx) -> PropResult {
     meta.required_bins = vec![
         "carry/minute", "carry/hour", "carry/day", "carry/month", "carry/year", "days/dom-and-dow-restricted", "days/dom-restricted", "days/dow-restricted", "days/unrestricted",
         "clock/unchanged", "clock/exactly-at-last-result", "clock/last-result-minus-1min", "clock/last-result-plus-1min", "clock/jump-hours-to-years", "clock/behind-last-result", "clone/compared", "result/leap-day",
+        "clone/clone()", "clone_from/fresh-source-into-used-target", "clone_from/used-source-into-used-target", "clone_from/used-source-into-fresh-target", "pull/next", "pull/nth(0)", "pull/nth(k)", "pull/skip(k)", "pull/take(k+1).last", "history/one-field-restricted", "history/zero-padded-numbers",
     ];
+    meta.rule.push_str(" Results are pulled with next() or through nth(k) / skip(k) / take(k+1) (must equal k+1 calls of next() under the same clock; k up to 150 on dense schedules). The copy is taken with clone() or with clone_from() into another schedule that was never used or used 1–3 times under a clock 10 years before … 10 years after the present one, from a source that was never used (first call) or used. Schedules with exactly one field restricted (each of the five fields); zero-padded numbers in generated schedules (judged when the crate accepts them, against their numeric reading).");
     meta.assumptions = vec!["clock pinned through the cfg(astrolabe_verif) hook; unsatisfiable schedules and a clock running backwards are outside the statement".into()];
     let _ = (DateTime::default(), OffsetUtilities::get_offset(&DateTime::default()));
     Ok((meta, out))
